@@ -256,5 +256,9 @@ func C16(tier string) {
 	h[47] = 1
 	h[9] = 0x27
 	r.Sample(map[string]interface{}{"header_hex": hex.EncodeToString(h), "reference": fmt.Sprintf("%+v", refs.DecodeHeader(h))})
+	if tier == "thorough" {
+		// configuration: 32-bit platform (the quick tier of this check, built for GOARCH=386)
+		subRunArch(r, "C16", "386")
+	}
 	r.Finish()
 }
